@@ -6,9 +6,28 @@ let z_of_int n = if n = 0 then Z0 else if n > 0 then Zpos (pos_of_int n) else Zn
 let int_of_z z = match z with Z0 -> 0 | Zpos p -> int_of_pos p | Zneg p -> - (int_of_pos p)
 let nat_s s = nat_of_int (int_of_string s)
 let ptr_s s = if s = "-" then None else Some (nat_s s)
-let name_s s = nat_of_int (match s with "-" -> 0 | "a" -> 1 | "b" -> 2 | "c" -> 3 | _ -> failwith "name")
-let letter n = match n with 0 -> "_" | 1 -> "a" | 2 -> "b" | 3 -> "c" | _ -> "?"
+(* names: unnamed, "a","b","c", L = a text of 21 characters (does not fit the node, nor the node a clone gets),
+   B = the binary identifier (no charset, one byte 'a'), M = a text of 29 characters (a clone has room for it) *)
+let name_s s = nat_of_int (match s with "-" -> 0 | "a" -> 1 | "b" -> 2 | "c" -> 3 | "L" -> 4 | "B" -> 5 | "M" -> 6 | _ -> failwith "name")
+let letter n = match n with 0 -> "_" | 1 -> "a" | 2 -> "b" | 3 -> "c" | 4 -> "L" | 5 -> "B" | 6 -> "M" | _ -> "?"
 let order_s s = match s with "post" -> PostOrder | "pre" -> PreOrder | "in" -> InOrder | _ -> failwith "order"
+let worder_s s = match s with "level" -> None | _ -> Some (order_s s)
+let byname_s s = match s with "n" -> true | "g" -> false | _ -> failwith "g|n"
+let zi s = z_of_int (int_of_string s)
+(* the identifier a query (ident, len, charset) of mpt_node_locate denotes, as a name code; 99 = the identifier
+   of no node; None = the call is refused (len without ident).  The same table (as the actual arguments) is in
+   harness/c14_node.c:query(). *)
+let query_s s = match s with
+  | "ta" -> Some 1 | "tb" -> Some 2 | "tc" -> Some 3 | "tL" -> Some 4 | "tM" -> Some 6    (* (text, strlen, -1) *)
+  | "t-" -> Some 99                                                      (* (NULL, 0, -1): the empty text *)
+  | "pa" -> Some 1                                                       (* ("ab", 1, -1): length is honoured *)
+  | "ua" -> Some 1                                                       (* ("a\0", 2, UTF8) *)
+  | "xa" -> Some 99                                                      (* ("a", 1, UTF8): no terminator *)
+  | "Ba" -> Some 5 | "Bb" -> Some 99                                     (* ("a"/"b", 1, 0) *)
+  | "U0" -> Some 0                                                       (* (NULL, 0, 0): unnamed *)
+  | "E" -> None                                                          (* (NULL, 1, 0) *)
+  | "p6" | "pu" | "pn" -> Some 99                                        (* (pointer, 0, charset != 0) *)
+  | _ -> failwith "query"
 
 let rec parse_ops t = match t with
   | [] -> []
@@ -22,9 +41,33 @@ let rec parse_ops t = match t with
   | "unlink" :: x :: r -> OUnlink (nat_s x) :: parse_ops r
   | "move" :: p :: d :: r -> OMove (nat_s p, nat_s d) :: parse_ops r
   | "lmove" :: p :: d :: r -> OLMove (nat_s p, nat_s d) :: parse_ops r
-  | "clone" :: x :: r -> OClone (nat_s x) :: parse_ops r
-  | "lclone" :: x :: r -> OLClone (nat_s x) :: parse_ops r
-  | "tclone" :: x :: r -> OTClone (nat_s x) :: parse_ops r
+  | "clone" :: x :: r -> OClone (nat_s x, nat_of_int 0) :: parse_ops r
+  | "lclone" :: x :: r -> OLClone (nat_s x, nat_of_int 0) :: parse_ops r
+  | "tclone" :: x :: r -> OTClone (nat_s x, nat_of_int 0) :: parse_ops r
+  | "fclone" :: k :: x :: r -> OClone (nat_s x, nat_s k) :: parse_ops r
+  | "flclone" :: k :: x :: r -> OLClone (nat_s x, nat_s k) :: parse_ops r
+  | "ftclone" :: k :: x :: r -> OTClone (nat_s x, nat_s k) :: parse_ops r
+  | "loc" :: x :: p :: q :: r ->
+    OLocate (nat_s x, zi p, (match query_s q with None -> None | Some n -> Some (nat_of_int n))) :: parse_ops r
+  | "walk" :: o :: f :: k :: x :: r -> OWalk (worder_s o, nat_s f, nat_s x, nat_s k) :: parse_ops r
+  | "zadd" :: b :: p :: x :: r -> ONull (NAdd (byname_s b, zi p, nat_s x)) :: parse_ops r
+  | "zaddn" :: b :: f :: p :: r -> ONull (NAddN (byname_s b, nat_s f, zi p)) :: parse_ops r
+  | "zins" :: b :: q :: p :: r -> ONull (NInsN (byname_s b, nat_s q, zi p)) :: parse_ops r
+  | "zmove" :: p :: r -> ONull (NMove (nat_s p)) :: parse_ops r
+  | "zpos" :: p :: r -> ONull (NPos (zi p)) :: parse_ops r
+  | "zunlink" :: r -> ONull NUnlink :: parse_ops r
+  | "zdestroy" :: r -> ONull NDestroy :: parse_ops r
+  | "zrelink" :: r -> ONull NRelink :: parse_ops r
+  | "zclone" :: r -> ONull NClone :: parse_ops r
+  | "zlclone" :: r -> ONull NLClone :: parse_ops r
+  | "ztclone" :: r -> ONull NTClone :: parse_ops r
+  | "ztrav" :: o :: f :: r -> ONull (NTrav (worder_s o, nat_s f)) :: parse_ops r
+  | "ztravh" :: x :: r -> ONull (NTravH (nat_s x)) :: parse_ops r
+  | "zloc" :: p :: r -> ONull (NLocate (zi p)) :: parse_ops r
+  | "zfind" :: r -> ONull NFind :: parse_ops r
+  | "znext" :: r -> ONull NNext :: parse_ops r
+  | "zsame" :: u :: r -> ONull (NSame (nat_s u)) :: parse_ops r
+  | "zsub" :: u :: r -> ONull (NSub (nat_s u)) :: parse_ops r
   | "clear" :: x :: r -> OClear (nat_s x) :: parse_ops r
   | "destroy" :: x :: r -> ODestroy (nat_s x) :: parse_ops r
   | "swap" :: a :: b :: r -> OSwap (nat_s a, nat_s b) :: parse_ops r
@@ -43,6 +86,10 @@ let show_out o = match o with
   | OutZ z -> "Z" ^ string_of_int (int_of_z z)
   | OutL [] -> "L-"
   | OutL l -> "L" ^ String.concat "." (List.map (fun i -> string_of_int (int_of_nat i)) l)
+  | OutW (l, p) ->
+    "L" ^ (if l = [] then "-" else
+           String.concat "." (List.map (fun (i, d) -> Printf.sprintf "%d:%d" (int_of_nat i) (int_of_nat d)) l))
+    ^ ">P" ^ show_ptr p
 
 (* table of n cells: int -> node option *)
 let show_links n (cell : int -> node option) =
